@@ -207,6 +207,7 @@ PROPS["C18"] = dict(
     groups=[
         dict(name="fifo", harness="gateway", weight=1, runs=dict(quick=1500, thorough=40000), opts=dict(reorder=False, dup=False)),
         dict(name="reorder", harness="gateway", weight=3, runs=dict(quick=5000, thorough=150000), opts=dict(reorder=True, dup=True)),
+        dict(name="impatient", harness="gateway", weight=2, runs=dict(quick=2500, thorough=80000), opts=dict(reorder=True, dup=True, short_timeouts=True)),
     ],
     rule="run = (1-4 jobs each with a generated sequence of progress / result / shutdown reports, 1-3 frontends with progress and result queries for known and unknown jobs and datasets, report latency window, duplication rate, forced uuid collisions, schedule); "
          "distinct = distinct event-log digest; non-trivial = at least one report was delivered out of timestamp order or duplicated",
